@@ -51,6 +51,91 @@ PRED_KIND = {
 }
 
 
+class Ren(object):
+    """actual local name -> canonical name.  Keys of findings (construct=) and details are written with the
+    canonical names, so that they do not depend on how the analysed code happens to name its locals: the names
+    the rules derive structurally get their documented name (seq_type, active_seqs, ...), every other
+    non-parameter local of *fn* is numbered in the order of its first binding (L1, L2, ...)."""
+
+    def __init__(self, fn=None, known=None):
+        self.map = {}
+        for actual, canon in (known or {}).items():
+            if actual:
+                self.map[actual] = canon
+        if fn is not None:
+            params = set(A.func_params(fn))
+            k = 0
+            for n in A.walk_local(fn):
+                name = None
+                if isinstance(n, ast.Name) and isinstance(n.ctx, (ast.Store, ast.Del)):
+                    name = n.id
+                elif isinstance(n, ast.ExceptHandler) and n.name:
+                    name = n.name
+                if name and name not in params and name not in self.map:
+                    k += 1
+                    self.map[name] = "L%d" % k
+        self._cache = {}
+
+    def also(self, known):
+        r = Ren(None, self.map)
+        for actual, canon in known.items():
+            if actual:
+                r.map[actual] = canon
+        return r
+
+    def src(self, node):
+        hit = self._cache.get(id(node))
+        if hit is None or hit[0] is not node:
+            hit = (node, A.src_with(node, self.map))
+            self._cache[id(node)] = hit
+        return hit[1]
+
+    def short(self, node, n=110):
+        s = " ".join(self.src(node).split())
+        return s if len(s) <= n else s[: n - 3] + "..."
+
+    def lits(self, p):
+        """p.literal_srcs() with canonical names."""
+        out = []
+        for t, pol in p.literals():
+            s = self.src(t)
+            if not pol:
+                s = "not (%s)" % s if isinstance(t, (ast.BoolOp, ast.Compare, ast.IfExp)) else "not " + s
+            out.append(s)
+        return out
+
+    def describe(self, p, limit=8):
+        """p.describe() with canonical names."""
+        conds = self.lits(p)
+        excs = [A.short(e[1].type, 40) if e[1].type is not None else "BaseException" for e in p.ev if e[0] == "exc"]
+        s = " and ".join(conds[-limit:]) if conds else "(unconditional)"
+        if excs:
+            s += " [in handler of %s]" % ", ".join(excs)
+        return s
+
+
+def is_empty_list(node):
+    return (isinstance(node, ast.List) and not node.elts) or (
+        isinstance(node, ast.Call) and isinstance(node.func, ast.Name) and node.func.id == "list" and not node.args and not node.keywords)
+
+
+def popped_kind(fn):
+    """(kind variable, set variable) of a constructor that takes the common kind out of the set of kinds:
+    `S = set(<kinds>)` ... `k = S.pop()`.  (None, None) when there is not exactly one such pair."""
+    found = []
+    for st in A.walk_local(fn):
+        if isinstance(st, ast.Assign) and len(st.targets) == 1 and isinstance(st.targets[0], ast.Name) \
+                and isinstance(st.value, ast.Call) and isinstance(st.value.func, ast.Attribute) and st.value.func.attr == "pop" \
+                and not st.value.args and isinstance(st.value.func.value, ast.Name):
+            sname = st.value.func.value.id
+            sdef = A.single_def(fn, sname)
+            if isinstance(sdef, ast.Call) and isinstance(sdef.func, ast.Name) and sdef.func.id == "set" and len(sdef.args) == 1:
+                found.append((st.targets[0].id, sname))
+    if len(set(found)) == 1:
+        return found[0]
+    return None, None
+
+
 def kind_literal(expr, var="seq_type"):
     """'k' if expr is `seq_type == 'k'`."""
     if isinstance(expr, ast.Compare) and len(expr.ops) == 1 and isinstance(expr.ops[0], ast.Eq):
@@ -213,6 +298,11 @@ def derive_names(ctx, fn, outer, inner):
         for st in h.body:
             if isinstance(st, ast.Assign) and A.is_const(st.value, True) and len(st.targets) == 1 and isinstance(st.targets[0], ast.Name):
                 N.stopped.add(st.targets[0].id)
+    known = {N.seqs: "active_seqs", N.types: "active_seq_types", N.count: "n_of_active_seqs", N.empty: "flow_was_empty", N.ind: "ind",
+             N.seq: "seq", N.typ: "seq_type", N.orig: "orig_buf", N.buf: "buf"}
+    for i, name in enumerate(sorted(N.stopped)):
+        known.setdefault(name, "stopped" if i == 0 else "stopped%d" % (i + 1))
+    N.ren = Ren(fn, known)
     return N
 
 
@@ -220,10 +310,23 @@ def derive_names(ctx, fn, outer, inner):
 def check_classifier(ctx):
     res = ctx.res
     fn = ctx.tree.func(SPLIT, "_get_seq_with_type")
+    params = A.func_params(fn)
+    seqp = params[0] if params else "seq"
+    # the kind variable is the second member of the returned pair (<branch>, <kind>)
+    all_rets = [r for r in A.walk_local(fn) if isinstance(r, ast.Return)]
+    kvars = {r.value.elts[1].id for r in all_rets if isinstance(r.value, ast.Tuple) and len(r.value.elts) == 2
+             and isinstance(r.value.elts[1], ast.Name)}
+    if not ctx.require(len(kvars) == 1 and len(all_rets) >= 1 and all(
+            isinstance(r.value, ast.Tuple) and len(r.value.elts) == 2 and isinstance(r.value.elts[1], ast.Name) for r in all_rets),
+            "C03-a", fn, "_get_seq_with_type does not return a pair (branch, kind variable) at every return"):
+        return None
+    kvar = kvars.pop()
+    R = Ren(fn, {kvar: "seq_type"})
+    is_kind_store = lambda st: isinstance(st, ast.Assign) and any(isinstance(t, ast.Name) and t.id == kvar for t in st.targets) \
+        and isinstance(st.value, ast.Constant) and isinstance(st.value.value, str) and st.value.value
     produced = {}
     for st in A.walk_local(fn):
-        if isinstance(st, ast.Assign) and any(isinstance(t, ast.Name) and t.id == "seq_type" for t in st.targets) \
-                and isinstance(st.value, ast.Constant) and isinstance(st.value.value, str) and st.value.value:
+        if is_kind_store(st):
             produced.setdefault(st.value.value, st)
     KINDS = set(produced)
     ctx.instances_floor("C03-a/kinds", len(KINDS), 4, "kind strings produced by the classifier")
@@ -232,11 +335,10 @@ def check_classifier(ctx):
     for p in P.paths_of(fn):
         if p.end == "raise":
             continue
-        kinds = [s.value.value for s in p.stmts() if isinstance(s, ast.Assign) and any(
-            isinstance(t, ast.Name) and t.id == "seq_type" for t in s.targets) and isinstance(s.value, ast.Constant) and s.value.value]
+        kinds = [s.value.value for s in p.stmts() if is_kind_store(s)]
         if len(kinds) != 1:
             ctx.violation("C03-a", fn, "_get_seq_with_type assigns %d kinds (%s) on path [%s]: a branch would be classified "
-                          "ambiguously or not at all" % (len(kinds), kinds, p.describe()), construct="classify:%s" % p.describe(3), path=p)
+                          "ambiguously or not at all" % (len(kinds), kinds, p.describe()), construct="classify:%s" % R.describe(p, 3), path=p)
             continue
         kind = kinds[0]
         n += 1
@@ -245,13 +347,13 @@ def check_classifier(ctx):
         for t, pol in p.literals():
             if not pol:
                 continue
-            if isinstance(t, ast.Call) and A.call_name(t) == "isinstance" and len(t.args) == 2 and A.src(t.args[0]) == "seq":
+            if isinstance(t, ast.Call) and A.call_name(t) == "isinstance" and len(t.args) == 2 and A.src(t.args[0]) == seqp:
                 c = res.canon(t.args[1])
                 if c in CLASS_KIND:
                     want = CLASS_KIND[c]
             elif isinstance(t, ast.Call) and res.canon(t.func) in PRED_KIND and want is None:
                 want, conv_want = PRED_KIND[res.canon(t.func)]
-        convs = [s.value for s in p.stmts() if isinstance(s, ast.Assign) and any(isinstance(t, ast.Name) and t.id == "seq" for t in s.targets)]
+        convs = [s.value for s in p.stmts() if isinstance(s, ast.Assign) and any(isinstance(t, ast.Name) and t.id == seqp for t in s.targets)]
         if want is None:
             # the fall-back: everything else becomes a Sequence
             want, conv_want = "sequence", "lena.core.sequence.Sequence"
@@ -262,12 +364,12 @@ def check_classifier(ctx):
             okc = not convs
         ctx.check("C03-a", kind == want, produced.get(kind, fn), "_get_seq_with_type classifies a branch as '%s' on path [%s], where its "
                   "own tests say it is a '%s': the branch would be driven with the wrong protocol" % (kind, p.describe(), want),
-                  detail="classifier path [%s] => '%s'" % (p.describe(2), kind), construct="kind:%s:%s" % (kind, p.describe(2)), path=p)
+                  detail="classifier path [%s] => '%s'" % (R.describe(p, 2), kind), construct="kind:%s:%s" % (kind, R.describe(p, 2)), path=p)
         ctx.check("C03-a", okc, fn, "_get_seq_with_type converts a '%s' branch with `%s`, not to %s" % (
             kind, "; ".join(A.short(c, 40) for c in convs), conv_want or "itself"), detail="conversion matches kind '%s'" % kind,
-            construct="convert:%s:%s" % (kind, p.describe(2)), path=p)
+            construct="convert:%s:%s" % (kind, R.describe(p, 2)), path=p)
         rets = [s for s in p.stmts() if isinstance(s, ast.Return)]
-        if ctx.require(bool(rets) and A.src(rets[-1].value) == "(seq, seq_type)", "C03-a", fn, "_get_seq_with_type does not end with "
+        if ctx.require(bool(rets) and A.src(rets[-1].value) == "(%s, %s)" % (seqp, kvar), "C03-a", fn, "_get_seq_with_type does not end with "
                        "`return (seq, seq_type)` on path [%s]" % p.describe(3)):
             ctx.ok("C03-a", fn, "returns (seq, seq_type)")
     ctx.instances_floor("C03-a/classifier", n, 7, "normal paths of the classifier")
@@ -275,11 +377,12 @@ def check_classifier(ctx):
     for pred, caps in (("is_fill_compute_el", ("fill", "compute")), ("is_fill_request_el", ("fill", "request")), ("is_run_el", ("run",))):
         pf = ctx.tree.func("lena.core.check_sequence_type", pred)
         rets = [r for r in A.walk_local(pf) if isinstance(r, ast.Return)]
-        ok = len(rets) == 1
+        ok = len(rets) == 1 and bool(A.func_params(pf))
         if ok:
+            obj = A.func_params(pf)[0]
             lits = [A.src(t).replace('"', "'") for t, pol in A.literals(rets[0].value, True) if pol]
             for c in caps:
-                ok = ok and "hasattr(obj, '%s')" % c in lits and "callable(obj.%s)" % c in lits
+                ok = ok and "hasattr(%s, '%s')" % (obj, c) in lits and "callable(%s.%s)" % (obj, c) in lits
         ctx.check("C03-a", ok, pf, "%s does not require callable %s: an object without them would be driven as that kind" % (pred, "/".join(caps)),
                   detail="%s <=> callable %s" % (pred, ", ".join(caps)), construct="pred:%s" % pred)
     return KINDS
@@ -297,15 +400,20 @@ def check_kinds(ctx, KINDS):
     if N is None:
         return
     ftyp = final[0].target.elts[1].id if isinstance(final[0].target, ast.Tuple) and len(final[0].target.elts) == 2 \
-        and isinstance(final[0].target.elts[1], ast.Name) else "seq_type"
-    tables = [
-        ("block loop of Split.run", kinds_compared(inner.body, N.typ), True, inner),
-        ("final pass of Split.run", kinds_compared(final[0].body, ftyp), True, final[0]),
-    ]
+        and isinstance(final[0].target.elts[1], ast.Name) else None
+    tables = [("block loop of Split.run", kinds_compared(inner.body, N.typ), True, inner)]
+    if ftyp is not None:    # otherwise check_final_pass reports the unrecognised loop
+        tables.append(("final pass of Split.run", kinds_compared(final[0].body, ftyp), True, final[0]))
     init = ctx.tree.func(SPLIT, "Split.__init__")
-    tables.append(("common-type table of Split.__init__", kinds_compared([init]), False, init))
     zinit = ctx.tree.func(ZIP, "Zip.__init__")
-    tables.append(("common-type table of Zip.__init__", kinds_compared([zinit]), False, zinit))
+    # the common kind of a constructor is the one taken out of the set of kinds (k = set(kinds).pop())
+    common = {}
+    for cname, f in (("Split", init), ("Zip", zinit)):
+        kv, sv = popped_kind(f)
+        if ctx.require(kv is not None, "C03-a", f, "%s.__init__: the common kind is not taken from the set of kinds by one "
+                       "`kind = kinds.pop()` with `kinds = set(...)`" % cname):
+            common[cname] = (kv, sv)
+            tables.append(("common-type table of %s.__init__" % cname, kinds_compared([f], kv), False, f))
     for name, tab, exhaustive, node in tables:
         extra = sorted(set(tab) - KINDS)
         for k in extra:
@@ -317,17 +425,21 @@ def check_kinds(ctx, KINDS):
                           construct="missing-kind:%s:%s" % (name, k))
         if not extra and not missing:
             ctx.ok("C03-a", node, "%s handles %s" % (name, ", ".join(sorted(tab))))
-    ctx.instances_floor("C03-a/tables", len(tables), 4, "dispatch tables")
+    if len(common) == 2 and ftyp is not None:
+        ctx.instances_floor("C03-a/tables", len(tables), 4, "dispatch tables")
     # common type => methods of that kind are installed
     for cls, f, table in (("Split", init, {"fill_compute": {"fill": "_fill", "compute": "_compute"},
                                            "fill_request": {"fill": "_fill", "request": "_request"}}),
                           ("Zip", zinit, {"fill_compute": {"fill": "_fill", "compute": "_compute"},
                                           "fill_request": {"fill": "_fill", "request": "_request"}})):
+        if cls not in common:
+            continue
+        kvar = common[cls][0]
         seen = set()
         for p in P.paths_of(f):
             if p.end == "raise":
                 continue
-            k = path_kind(p)
+            k = path_kind(p, kvar)
             if k not in table or k in seen:
                 continue
             seen.add(k)
@@ -343,17 +455,21 @@ def check_kinds(ctx, KINDS):
         ctx.check("C03-a", seen == set(table), f, "%s.__init__ installs common-type methods only for %s" % (cls, sorted(seen)),
                   detail="%s: both fill kinds have common-type methods" % cls, construct="common-kinds:%s" % cls)
     # Zip rejects mixed kinds and non-fill kinds
+    if "Zip" not in common:
+        return
+    kvar, svar = common["Zip"]
+    R = Ren(zinit, {kvar: "seq_type", svar: "seq_types"})
     ok = False
     for p in P.paths_of(zinit):
-        lits = p.literal_srcs()
+        lits = R.lits(p)
         if "len(seq_types) != 1" in lits:
             ok = p.end == "raise"
     ctx.check("C03-a", ok, zinit, "Zip.__init__ does not reject branches of different kinds", detail="Zip: one kind only", construct="zip-one-kind")
     n_ok = 0
     for p in P.paths_of(zinit):
-        if p.end == "raise" or "not (len(seq_types) != 1)" not in p.literal_srcs():
+        if p.end == "raise" or "not (len(seq_types) != 1)" not in R.lits(p):
             continue
-        k = path_kind(p)
+        k = path_kind(p, kvar)
         if k in ("fill_compute", "fill_request"):
             n_ok += 1
             continue
@@ -374,6 +490,7 @@ def check_block_loop(ctx, KINDS):
     if N is None:
         return
     seqvar, typevar = N.seq, N.typ
+    R = N.ren
     ctx.ok("C03-d", inner, "branch and kind are read at the same index %s" % N.ind)
     paths = P.loop_body_paths(inner)
     per_kind = {}
@@ -400,12 +517,12 @@ def check_block_loop(ctx, KINDS):
             ctx.check("C03-d", ok, inner, "Split.run drops a branch inconsistently on path [%s]: del active_seqs[ind] x%d, del "
                       "active_seq_types[ind] x%d, n_of_active_seqs -= 1 x%d, ind advanced x%d, ends with %s -- the two lists (branch, "
                       "kind) and the count must change together and ind must stay" % (desc, len(d1), len(d2), len(decs), len(incs), p.end),
-                      detail="drop path [%s]: both lists, count, ind kept" % p.describe(3), construct="drop:%s" % p.describe(4), path=p)
+                      detail="drop path [%s]: both lists, count, ind kept" % R.describe(p, 3), construct="drop:%s" % R.describe(p, 4), path=p)
         else:
             ok = len(incs) == 1 and isinstance(incs[0].op, ast.Add) and A.src(incs[0].value) == "1" and p.end in ("fall", "continue")
             ctx.check("C03-d", ok, inner, "Split.run does not advance ind exactly once on the path [%s] that keeps the branch (%d "
                       "increments): a branch would be visited twice or skipped" % (desc, len(incs)),
-                      detail="keep path [%s]: ind += 1 once" % p.describe(3), construct="advance:%s" % p.describe(4), path=p)
+                      detail="keep path [%s]: ind += 1 once" % R.describe(p, 3), construct="advance:%s" % R.describe(p, 4), path=p)
         if k is None:
             ctx.check("C03-b", not calls, inner, "Split.run calls %s on a branch whose kind matched no test [%s]" % (attrs, desc),
                       detail="no kind matched: nothing called", construct="nokind-calls", path=p, )
@@ -442,7 +559,7 @@ def check_block_loop(ctx, KINDS):
             if ok and fills and reqs:
                 ok = max(fills) < min(reqs)
         ctx.check("C03-b", ok, inner, "Split.run, kind '%s', path [%s]: calls %s, dropped=%s -- %s" % (k, desc, attrs, dropped, msg),
-                  detail="'%s' [%s]: %s" % (k, p.describe(3), msg), construct="protocol:%s:%s" % (k, p.describe(4)), path=p)
+                  detail="'%s' [%s]: %s" % (k, R.describe(p, 3), msg), construct="protocol:%s:%s" % (k, R.describe(p, 4)), path=p)
         # fills are per value of the block
         if k in ("fill_compute", "fill_request"):
             for i, a, c in calls:
@@ -450,7 +567,7 @@ def check_block_loop(ctx, KINDS):
                     loop = A.enclosing(c, (ast.For,))
                     okf = loop is not None and A.src(loop.iter) == N.buf and len(c.args) == 1 and A.src(c.args[0]) == A.src(loop.target)
                     ctx.check("C03-b", okf, c, "Split.run fills `%s`, not every value of the block (`for val in buf: seq.fill(val)`)" % A.short(c, 40),
-                              detail="fill(val) for val in buf", construct="fill-arg:%s" % A.short(c, 50), path=p)
+                              detail="fill(val) for val in buf", construct="fill-arg:%s" % R.short(c, 50), path=p)
         # results of compute/request/run/__call__ are yielded
         for i, a, c in calls:
             if a in ("compute", "request", "run", "__call__") and id(c) not in checked_yield:
@@ -463,7 +580,7 @@ def check_block_loop(ctx, KINDS):
             ctx.check("C03-c", ok, inner, "Split.run: after LenaStopFill on a '%s' branch [%s] the branch is %s and %s; it must be "
                       "finalised (%s) and dropped" % (k, desc, "finalised" if fin and cnt(fin) else "not finalised",
                                                       "dropped" if dropped else "kept", fin),
-                      detail="LenaStopFill on '%s' => %s() and drop" % (k, fin), construct="stop:%s:%s" % (k, p.describe(4)), path=p)
+                      detail="LenaStopFill on '%s' => %s() and drop" % (k, fin), construct="stop:%s:%s" % (k, R.describe(p, 4)), path=p)
     ctx.instances_floor("C03-b/paths", n_paths, 12, "paths through the branch loop")
     for k in sorted(KINDS & set(CAPS)):
         ctx.check("C03-b", per_kind.get(k, 0) > 0, inner, "no path of the branch loop handles kind '%s'" % k, detail="kind '%s': %d paths" % (k, per_kind.get(k, 0)),
@@ -490,7 +607,7 @@ def check_block_loop(ctx, KINDS):
     for c in fills:
         loop = A.enclosing(c, (ast.For,))
         blk = A.parent(loop)
-        body = getattr(blk, "body", [])
+        body = [st for st in getattr(blk, "body", []) if st is loop or not A.is_noop_stmt(st)]
         idx = body.index(loop) if loop in body else -1
         ok = idx > 0 and isinstance(body[idx - 1], ast.Assign) and A.is_const(body[idx - 1].value, False) \
             and A.src(body[idx - 1].targets[0]) in N.stopped
@@ -508,7 +625,8 @@ def check_block_loop(ctx, KINDS):
             writes.append(n)
     for wnode in writes:
         ctx.violation("C03-d", wnode, "Split.run changes the list of active branches other than by dropping index ind: `%s` (reordering or "
-                      "re-adding branches breaks the documented branch order)" % A.short(A.enclosing(wnode, (ast.stmt,)) or wnode, 60))
+                      "re-adding branches breaks the documented branch order)" % A.short(A.enclosing(wnode, (ast.stmt,)) or wnode, 60),
+                      construct="list-write:%s" % R.short(A.enclosing(wnode, (ast.stmt,)) or wnode, 160))
     if not writes:
         ctx.ok("C03-d", fn, "the active lists are only changed by `del [ind]`")
     inits = {A.src(s.targets[0]): s.value for s in fn.body if isinstance(s, ast.Assign) and len(s.targets) == 1}
@@ -521,9 +639,9 @@ def check_block_loop(ctx, KINDS):
             ctx.ok("C03-d", v, "%s is a copy of %s in constructor order" % (lst, attr))
         elif sv == attr:
             ctx.violation("C03-d", v, "Split.run works on %s itself, not on a copy: dropping a finished branch (`del %s[ind]`) removes it "
-                          "from the Split, so a second run has fewer branches" % (attr, lst), construct="active-alias:%s" % lst)
+                          "from the Split, so a second run has fewer branches" % (attr, lst), construct="active-alias:%s" % R.map.get(lst, lst))
         elif K.iter_order(v, attr) == "wrong":
-            ctx.violation("C03-d", v, "Split.run starts from `%s`, not from all branches in constructor order" % sv, construct="active-order:%s" % lst)
+            ctx.violation("C03-d", v, "Split.run starts from `%s`, not from all branches in constructor order" % sv, construct="active-order:%s" % R.map.get(lst, lst))
         else:
             ctx.unknown("C03-d", v, "Split.run: %s = %s is not a recognised copy of %s" % (lst, sv, attr))
     v = inits.get(N.count)
@@ -555,10 +673,26 @@ def check_block_loop(ctx, KINDS):
     loops = [l for l in A.walk_local(init) if isinstance(l, ast.For) and any(
         isinstance(c, ast.Call) and A.call_name(c) == "_get_seq_with_type" for c in ast.walk(l))]
     if ctx.require(len(loops) == 1, "C03-d", init, "Split.__init__: the conversion loop was not found"):
+        # the converted branch and its kind are the two names unpacked from _get_seq_with_type(...);
+        # the list of converted branches is the one the branch is stored in
+        unp = [s for s in A.walk_body(loops[0].body) if isinstance(s, ast.Assign) and isinstance(s.value, ast.Call)
+               and A.call_name(s.value) == "_get_seq_with_type"]
+        ok_unp = len(unp) == 1 and len(unp[0].targets) == 1 and isinstance(unp[0].targets[0], ast.Tuple) \
+            and len(unp[0].targets[0].elts) == 2 and all(isinstance(e, ast.Name) for e in unp[0].targets[0].elts)
+        if not ctx.require(ok_unp, "C03-d", loops[0], "Split.__init__: the result of _get_seq_with_type is not unpacked into (branch, kind)"):
+            return
+        seqv, typv = (e.id for e in unp[0].targets[0].elts)
+        stores = sorted({c.func.value.id for c in A.walk_body(loops[0].body) if isinstance(c, ast.Call) and isinstance(c.func, ast.Attribute)
+                         and c.func.attr in ("append", "insert", "appendleft") and isinstance(c.func.value, ast.Name)
+                         and any(isinstance(a, ast.Name) and a.id == seqv for a in c.args)})
+        if not ctx.require(len(stores) <= 1, "C03-d", loops[0], "Split.__init__: the converted branch is stored in several lists (%s)" % ", ".join(stores)):
+            return
+        newv = stores[0] if stores else None
+        RI = Ren(init, {seqv: "seq", typv: "seq_type", newv: "new_seqs"})
         for p in P.loop_body_paths(loops[0]):
             if p.end == "raise":
                 continue
-            apps = [A.src(c) for _, c in p.calls() if isinstance(c.func, ast.Attribute) and c.func.attr in ("append", "insert", "appendleft")]
+            apps = [RI.src(c) for _, c in p.calls() if isinstance(c.func, ast.Attribute) and c.func.attr in ("append", "insert", "appendleft")]
             a1 = [a for a in apps if a.startswith("new_seqs.")]
             a2 = [a for a in apps if a.startswith("self._seq_types.")]
             if a1 == ["new_seqs.append(seq)"] and a2 == ["self._seq_types.append(seq_type)"]:
@@ -570,7 +704,7 @@ def check_block_loop(ctx, KINDS):
                 ctx.unknown("C03-d", loops[0], "Split.__init__: unrecognised way of storing branches and kinds (%s)" % ", ".join(apps))
         sup = [c for c in A.walk_local(init) if isinstance(c, ast.Call) and isinstance(c.func, ast.Attribute) and c.func.attr == "__init__"]
         if ctx.require(len(sup) == 1 and len(sup[0].args) == 1, "C03-d", init, "Split.__init__: call of the base constructor not found"):
-            ctx.check("C03-d", A.src(sup[0].args[0]) == "new_seqs", sup[0], "Split.__init__ hands `%s` to the base class, not the converted "
+            ctx.check("C03-d", newv is not None and A.src(sup[0].args[0]) == newv, sup[0], "Split.__init__ hands `%s` to the base class, not the converted "
                       "branches in order" % A.src(sup[0].args[0]), detail="_seqs = converted branches", construct="init-seqs")
 
 
@@ -610,6 +744,7 @@ def check_final_pass(ctx, KINDS):
         return
     seen = {}
     checked_yield = set()
+    R = N.ren.also({fseq: "seq", ftyp: "seq_type"})
     for p in P.loop_body_paths(loop):
         if p.end in ("raise",):
             continue
@@ -643,7 +778,7 @@ def check_final_pass(ctx, KINDS):
                 c = [c for _, a, c in calls if a == "run"][0]
                 ok = len(c.args) == 1 and A.src(c.args[0]) in ("[]", "()", "iter([])", "iter(())")
         ctx.check("C03-e", ok, loop, "final pass of Split.run, kind '%s' [%s]: calls %s -- expected %s" % (k, p.describe(4), attrs, msg),
-                  detail="final pass '%s' [%s]: %s" % (k, p.describe(2), msg), construct="final:%s:%s" % (k, p.describe(3)), path=p)
+                  detail="final pass '%s' [%s]: %s" % (k, R.describe(p, 2), msg), construct="final:%s:%s" % (k, R.describe(p, 3)), path=p)
         seen.setdefault(k, set()).add("empty" if (guarded or k == "fill_compute") else "nonempty")
         for i, a, c in calls:
             if id(c) not in checked_yield:
@@ -693,10 +828,11 @@ def check_final_pass(ctx, KINDS):
     ctx.check("C03-f", ok, init, "an empty Split does not install the identity run (_empty_run under `self._n_seq_types == 0`)",
               detail="no branches => run = _empty_run", construct="empty-run-install")
     er = ctx.tree.func(SPLIT, "Split._empty_run")
-    body = A.body_wo_doc(er)
-    if len(body) == 1 and isinstance(body[0], ast.Expr) and isinstance(body[0].value, ast.YieldFrom) and A.src(body[0].value.value) == "flow":
+    body = [st for st in A.body_wo_doc(er) if not A.is_noop_stmt(st)]
+    flowp = ([x for x in A.func_params(er) if x != "self"] or ["flow"])[0]
+    if len(body) == 1 and isinstance(body[0], ast.Expr) and isinstance(body[0].value, ast.YieldFrom) and A.src(body[0].value.value) == flowp:
         ctx.ok("C03-f", er, "_empty_run yields every value unchanged (yield from flow)")
-    elif ctx.require(len(body) == 1 and isinstance(body[0], ast.For) and A.src(body[0].iter) == "flow" and not body[0].orelse, "C03-f", er,
+    elif ctx.require(len(body) == 1 and isinstance(body[0], ast.For) and A.src(body[0].iter) == flowp and not body[0].orelse, "C03-f", er,
                      "Split._empty_run is not a single loop over the flow"):
         tgt = A.src(body[0].target)
         bad = None
@@ -708,7 +844,16 @@ def check_final_pass(ctx, KINDS):
         ctx.check("C03-f", bad is None, er, "Split._empty_run is not the identity: on path [%s] a value is not yielded exactly once as it "
                   "is" % (bad.describe(3) if bad else ""), detail="_empty_run yields every value unchanged", construct="empty-run-body")
     n_types = [s for s in A.walk_local(init) if isinstance(s, ast.Assign) and any(A.is_self_attr(t, "_n_seq_types") for t in s.targets)]
-    ok = len(n_types) == 1 and A.src(n_types[0].value) in ("len(different_seq_types)", "len(set(self._seq_types))")
+    ok = len(n_types) == 1
+    if ok:
+        v = n_types[0].value
+        # len(<local>) with the one definition `<local> = set(self._seq_types)`, or len(set(self._seq_types)) itself
+        if isinstance(v, ast.Call) and A.call_name(v) == "len" and len(v.args) == 1 and isinstance(v.args[0], ast.Name) \
+                and v.args[0].id not in A.func_params(init):
+            v = A.single_def(init, v.args[0].id)
+            ok = v is not None and A.src(v) == "set(self._seq_types)"
+        else:
+            ok = A.src(v) == "len(set(self._seq_types))"
     if ctx.require(ok, "C03-f", init, "_n_seq_types is not computed as len(set of kinds)"):
         ctx.ok("C03-f", init, "_n_seq_types = len(set of kinds)")
     # common-type methods
@@ -755,6 +900,19 @@ def check_zip(ctx):
     if not branch_iteration(ctx, "C03-g", inner[0], params[0] if params else "results", "a round of Zip._yield", "zip-round-iter"):
         return
     rvar = A.src(inner[0].target)
+    # the tuple under construction is the list the values of a round are appended to, inside the loop over the branches
+    receivers = sorted({c.func.value.id for c in A.walk_body(inner[0].body) if isinstance(c, ast.Call) and isinstance(c.func, ast.Attribute)
+                        and c.func.attr == "append" and isinstance(c.func.value, ast.Name)})
+    if not ctx.require(len(receivers) <= 1, "C03-g", inner[0], "Zip._yield appends to several lists in a round (%s): the tuple under "
+                       "construction cannot be identified" % ", ".join(receivers)):
+        return
+    valvar = receivers[0] if receivers else None
+    flags = sorted({st.targets[0].id for h in ast.walk(loop) if isinstance(h, ast.ExceptHandler) for st in h.body
+                    if isinstance(st, ast.Assign) and A.is_const(st.value, True) and len(st.targets) == 1 and isinstance(st.targets[0], ast.Name)})
+    known = {valvar: "value", rvar: "res"}
+    for i, name in enumerate(flags):
+        known.setdefault(name, "break_while" if i == 0 else "break_while%d" % (i + 1))
+    R = Ren(fn, known)
     n = 0
     for p in P.loop_body_paths(loop):
         if p.end in ("raise",):
@@ -768,17 +926,18 @@ def check_zip(ctx):
             ok = not ys and p.end in ("break", "return")
             ctx.check("C03-g", ok, loop, "Zip._yield: after a branch is exhausted (StopIteration) the round [%s] %s; it must leave the "
                       "loop without yielding the partial tuple" % (p.describe(4), "yields" if ys else "continues (ends with %s)" % p.end),
-                      detail="StopIteration => leave the loop, nothing yielded", construct="zip-stop:%s" % p.describe(3), path=p)
+                      detail="StopIteration => leave the loop, nothing yielded", construct="zip-stop:%s" % R.describe(p, 3), path=p)
         elif any(e[0] == "iter" and e[1] is inner[0] for e in p.ev):
             # a round in which a branch delivered a value
             ok = len(nexts) == 1 and len(nexts[0].args) == 1 and A.src(nexts[0].args[0]) == rvar
-            apps = [c for _, c in p.calls() if isinstance(c.func, ast.Attribute) and c.func.attr == "append" and A.src(c.func.value) == "value"]
+            apps = [c for _, c in p.calls() if isinstance(c.func, ast.Attribute) and c.func.attr == "append" and valvar is not None
+                    and A.src(c.func.value) == valvar]
             ok = ok and len(apps) == 1
             ctx.check("C03-g", ok, inner[0], "Zip._yield does not take exactly one value (next(%s)) from each branch per round and keep "
-                      "it [%s]" % (rvar, p.describe(4)), detail="one next() per branch per round, appended in order", construct="zip-next:%s" % p.describe(3), path=p)
+                      "it [%s]" % (rvar, p.describe(4)), detail="one next() per branch per round, appended in order", construct="zip-next:%s" % R.describe(p, 3), path=p)
             if p.end in ("fall", "continue"):
                 ctx.check("C03-g", len(ys) == 1, loop, "Zip._yield yields %d values in a complete round [%s]" % (len(ys), p.describe(4)),
-                          detail="one tuple per complete round", construct="zip-yield:%s" % p.describe(3), path=p)
+                          detail="one tuple per complete round", construct="zip-yield:%s" % R.describe(p, 3), path=p)
     ctx.instances_floor("C03-g", n, 3, "paths through a Zip round")
     # handlers of next(): StopIteration only
     for c in A.walk_local(fn):
@@ -788,13 +947,18 @@ def check_zip(ctx):
             ctx.check("C03-g", ok, c, "next() in Zip._yield is not guarded by `except StopIteration` only", detail="next guarded by except StopIteration",
                       construct="zip-next-guard")
     # the tuple is reset every round
-    vstores = [n for n in A.walk_body(loop.body) if isinstance(n, ast.Name) and n.id == "value" and isinstance(n.ctx, ast.Store)]
-    if not vstores:
+    vstores = [n for n in A.walk_body(loop.body) if isinstance(n, ast.Name) and n.id == valvar and isinstance(n.ctx, ast.Store)]
+    if valvar is None:
+        # no value is kept at all: reported above (zip-next); which list would have to be reset is not known
+        ctx.unknown("C03-g", loop, "Zip._yield: no list collects the values of a round, so its reset cannot be checked")
+    elif not vstores:
         ctx.violation("C03-g", loop, "Zip._yield never starts a new tuple inside the round loop: values of earlier rounds stay in it",
                       construct="zip-reset")
     else:
-        first = loop.body[0]
-        if ctx.require(isinstance(first, ast.Assign) and A.src(first) in ("value = []", "value = list()"), "C03-g", loop,
+        real = [st for st in loop.body if not A.is_noop_stmt(st)]
+        first = real[0] if real else None
+        if ctx.require(isinstance(first, ast.Assign) and len(first.targets) == 1 and isinstance(first.targets[0], ast.Name)
+                       and first.targets[0].id == valvar and is_empty_list(first.value), "C03-g", loop,
                        "Zip._yield: the round does not start with `value = []`"):
             ctx.ok("C03-g", first, "value = [] at the start of each round")
     # _compute/_request collect the branch results in order and hand them to _yield
@@ -805,7 +969,10 @@ def check_zip(ctx):
         if not ctx.require(f is not None, "C03-g", cls, "Zip.%s vanished" % name):
             continue
         loops = [l for l in f.body if isinstance(l, ast.For)]
-        if not ctx.require(len(loops) == 2 and A.src(loops[1].iter) == "self._yield(results)", "C03-g", f,
+        # the collected iterators are the (local) list handed to self._yield
+        it = loops[1].iter if len(loops) == 2 else None
+        resvar = it.args[0].id if isinstance(it, ast.Call) and len(it.args) == 1 and not it.keywords and isinstance(it.args[0], ast.Name) else None
+        if not ctx.require(resvar is not None and A.src_with(it, {resvar: "results"}) == "self._yield(results)", "C03-g", f,
                            "Zip.%s: expected a collecting loop and a loop over self._yield(results)" % name):
             continue
         if not branch_iteration(ctx, "C03-g", loops[0], "self._sequences", "Zip.%s" % name, "zip-iter:%s" % name):
@@ -816,7 +983,7 @@ def check_zip(ctx):
         ctx.check("C03-g", attrs == [meth], f, "Zip.%s calls %s on its branches, not %s" % (name, attrs, meth),
                   detail="Zip.%s zips the %s() iterators of its branches" % (name, meth), construct="zip:%s" % name)
         apps = [c for c in A.walk_body(loops[0].body) if isinstance(c, ast.Call) and isinstance(c.func, ast.Attribute)
-                and A.src(c.func.value) == "results"]
+                and A.src(c.func.value) == resvar]
         if ctx.require(len(apps) == 1, "C03-g", f, "Zip.%s: results are not collected by one call" % name):
             ctx.check("C03-g", apps[0].func.attr == "append", apps[0], "Zip.%s collects the branch iterators with `%s`, which does not keep "
                       "branch order" % (name, A.short(apps[0], 40)), detail="results.append(...) in branch order", construct="zip-collect:%s" % name)
@@ -825,7 +992,12 @@ def check_zip(ctx):
 
 def check(ctx):
     kinds = check_classifier(ctx)
-    check_kinds(ctx, kinds)
+    if kinds is None:
+        # the classifier was not understood (reported UNKNOWN): the dispatch tables cannot be compared with it;
+        # the protocol rules below are still decided, for the documented kinds
+        kinds = set(CAPS)
+    else:
+        check_kinds(ctx, kinds)
     check_block_loop(ctx, kinds)
     check_final_pass(ctx, kinds)
     check_zip(ctx)
